@@ -37,12 +37,16 @@ package httpserver
 //     equal to the twin's.
 //
 // Leniency decisions:
-//   - the client address is carried by exactly one source per request
-//     (RemoteAddr, or X-Real-IP, or X-Forwarded-For "client[, proxy]", or XFF
-//     and X-Real-IP naming the same address); conflicting sources are not
-//     generated (precedence is not in the statement). Private / loopback
-//     client addresses are never sent through X-Forwarded-For (the address
-//     extraction skips them, the statement does not say so).
+//   - which address is "the client" follows the documented rule of the
+//     extraction package easegress imports (tomasen/realip): no X-Real-IP and
+//     no X-Forwarded-For -> peer address; else the first valid public hop of
+//     X-Forwarded-For; else X-Real-IP (c05ClientOf). Sources: RemoteAddr;
+//     X-Real-IP; XFF "client[, proxy]"; XFF and X-Real-IP agreeing; XFF made
+//     of private hops only + X-Real-IP = client (the same private chain is
+//     reused for different clients of a run); XFF "private hops, client" with
+//     a decoy X-Real-IP; XFF client + decoy X-Real-IP. Ops whose headers do
+//     not name op.IP under that rule are skipped. Not generated: private-only
+//     XFF without X-Real-IP (the rule yields no address), unparseable hops.
 //   - IPv4-mapped IPv6 addresses are not generated (family is a matter of
 //     reading). Invalid list entries are not generated (validation rejects
 //     them).
@@ -82,7 +86,6 @@ import (
 	"github.com/megaease/easegress/pkg/protocols/httpprot/httpstat"
 	"github.com/megaease/easegress/pkg/supervisor"
 	"github.com/megaease/easegress/pkg/util/ipfilter"
-	"github.com/megaease/easegress/pkg/util/stringtool"
 	"verif/simkit/hdrv"
 	"verif/simkit/sim"
 )
@@ -120,7 +123,12 @@ type c05Op struct {
 	Path   string `json:"path"`
 	Tag    string `json:"tag"`
 	IP     string `json:"ip"`
-	Via    string `json:"via"` // remote | xri | xff | xffproxy | both
+	Via    string `json:"via"` // remote | xri | xff | xffproxy | both | privxff | privpub | xffdecoy
+	// Chain: X-Forwarded-For hops that are all private/loopback (privxff,
+	// privpub); Decoy: an address put into X-Real-IP that the documented rule
+	// must NOT pick (privpub, xffdecoy; may be empty).
+	Chain string `json:"chain,omitempty"`
+	Decoy string `json:"decoy,omitempty"`
 }
 
 type c05Client struct {
@@ -300,6 +308,14 @@ func c05Gen(rng *sim.Rand, tier string) interface{} {
 		focus = append(focus, [3]string{h, m, p})
 	}
 	focusP := float64(rng.Pick(30, 60, 90)) / 100
+	// proxy chains made of private hops only; a scenario owns one or two of
+	// them and re-uses them for requests of DIFFERENT clients (what a fleet
+	// of internal proxies looks like from the server's side)
+	chains := []string{rng.PickStr("10.0.0.7, 192.168.1.9", "10.0.0.7", "192.168.1.9,10.0.0.7", "172.16.5.4, fc00::9", "127.0.0.1", "fe80::1, 10.9.9.9")}
+	if rng.Bool(0.4) {
+		chains = append(chains, rng.PickStr("10.0.0.8", "169.254.1.1, 10.0.0.7", "::1"))
+	}
+	pChainVia := float64(rng.Pick(0, 10, 30, 60)) / 100
 	nc := rng.Range(1, 4)
 	total := rng.Range(6, 40)
 	for c := 0; c < nc; c++ {
@@ -324,10 +340,23 @@ func c05Gen(rng *sim.Rand, tier string) interface{} {
 				op.Tag = "v1"
 			}
 			op.IP = pool[rng.Intn(len(pool))]
-			if c05Private(op.IP) {
+			switch {
+			case rng.Bool(pChainVia):
+				op.Chain = chains[rng.Intn(len(chains))]
+				op.Via = "privxff"
+				if !c05Private(op.IP) && rng.Bool(0.3) {
+					op.Via = "privpub"
+					if rng.Bool(0.5) {
+						op.Decoy = pool[rng.Intn(len(pool))]
+					}
+				}
+			case c05Private(op.IP):
 				op.Via = rng.PickStr("remote", "xri")
-			} else {
-				op.Via = rng.PickStr("remote", "remote", "xri", "xff", "xffproxy", "both")
+			default:
+				op.Via = rng.PickStr("remote", "remote", "xri", "xff", "xffproxy", "both", "xffdecoy")
+				if op.Via == "xffdecoy" {
+					op.Decoy = pool[rng.Intn(len(pool))]
+				}
 			}
 			cl.Ops = append(cl.Ops, op)
 		}
@@ -584,6 +613,24 @@ func c05Request(op c05Op, id string) *http.Request {
 		req.RemoteAddr = hostport(proxy)
 		req.Header.Set("X-Forwarded-For", op.IP)
 		req.Header.Set("X-Real-Ip", op.IP)
+	case "privxff":
+		// only private hops in X-Forwarded-For: the client is in X-Real-IP
+		req.RemoteAddr = hostport(proxy)
+		req.Header.Set("X-Forwarded-For", op.Chain)
+		req.Header.Set("X-Real-Ip", op.IP)
+	case "privpub":
+		// private hops first, then the (public) client; X-Real-IP is a decoy
+		req.RemoteAddr = hostport(proxy)
+		req.Header.Set("X-Forwarded-For", op.Chain+", "+op.IP)
+		if op.Decoy != "" {
+			req.Header.Set("X-Real-Ip", op.Decoy)
+		}
+	case "xffdecoy":
+		req.RemoteAddr = hostport(proxy)
+		req.Header.Set("X-Forwarded-For", op.IP)
+		if op.Decoy != "" {
+			req.Header.Set("X-Real-Ip", op.Decoy)
+		}
 	default:
 		req.RemoteAddr = hostport(op.IP)
 	}
@@ -592,6 +639,49 @@ func c05Request(op c05Op, id string) *http.Request {
 	}
 	req.Header.Set("X-C05-Id", id)
 	return req
+}
+
+// c05NonPublic lists the blocks the documented client-address rule skips in
+// X-Forwarded-For: loopback, RFC 1918, link-local, IPv6 loopback / ULA /
+// link-local (realip: "Exclude local or private address").
+var c05NonPublic = func() []*net.IPNet {
+	var out []*net.IPNet
+	for _, c := range []string{"127.0.0.0/8", "10.0.0.0/8", "172.16.0.0/12", "192.168.0.0/16", "169.254.0.0/16", "::1/128", "fc00::/7", "fe80::/10"} {
+		_, n, _ := net.ParseCIDR(c)
+		out = append(out, n)
+	}
+	return out
+}()
+
+// c05ClientOf is the documented rule of the address extraction easegress
+// imports (github.com/tomasen/realip, "follows the rule of X-Real-IP / of
+// X-Forwarded-For, exclude local or private address"): with neither header
+// the peer address; otherwise the first valid public hop of X-Forwarded-For;
+// if there is none, X-Real-IP. (A request with only private hops and no
+// X-Real-IP has no defined client: ok=false, never generated.)
+func c05ClientOf(req *http.Request) (string, bool) {
+	xff, xri := req.Header.Get("X-Forwarded-For"), req.Header.Get("X-Real-Ip")
+	if xff == "" && xri == "" {
+		h, _, err := net.SplitHostPort(req.RemoteAddr)
+		return h, err == nil
+	}
+	if xff != "" {
+	hops:
+		for _, hop := range strings.Split(xff, ",") {
+			hop = strings.TrimSpace(hop)
+			ip := net.ParseIP(hop)
+			if ip == nil {
+				continue
+			}
+			for _, n := range c05NonPublic {
+				if n.Contains(ip) {
+					continue hops
+				}
+			}
+			return hop, true
+		}
+	}
+	return xri, xri != ""
 }
 
 func (cm *c05Mux) serve(op c05Op, id string) (ans c05Answer, ok bool) {
@@ -631,12 +721,24 @@ func c05ValidOp(op c05Op) bool {
 		return false
 	}
 	switch op.Via {
-	case "remote", "xri":
-		return true
-	case "xff", "xffproxy", "both":
-		return !c05Private(op.IP)
+	case "remote", "xri", "xff", "xffproxy", "both", "privxff", "privpub", "xffdecoy":
+	default:
+		return false
 	}
-	return false
+	if op.Decoy != "" && net.ParseIP(op.Decoy) == nil {
+		return false
+	}
+	if (op.Via == "privxff" || op.Via == "privpub") && op.Chain == "" {
+		return false
+	}
+	// the request as built must name op.IP as its client under the documented
+	// rule (keeps shrunk / hand-edited scenarios honest)
+	req := c05Request(op, "x")
+	if req == nil {
+		return false
+	}
+	got, ok := c05ClientOf(req)
+	return ok && got == op.IP
 }
 
 func c05Exec(r *sim.Run, sci interface{}) {
@@ -874,7 +976,15 @@ func c05Exec(r *sim.Run, sci interface{}) {
 				// was the key in the route cache when the request was issued?
 				cached, full := false, false
 				if inst, _ := main.m.inst.Load().(*muxInstance); inst != nil && inst.cache != nil {
-					cached = inst.cache.Contains(stringtool.Cat(op.Host, op.Method, op.Path))
+					// (probe only) the key layout is the implementation's business:
+					// a key counts if it is host, method, path in that order with
+					// any blank separators
+					want := op.Host + op.Method + op.Path
+					for _, k := range inst.cache.Keys() {
+						if ks, ok := k.(string); ok && strings.Join(strings.Fields(ks), "") == want {
+							cached = true
+						}
+					}
 					full = inst.cache.Len() >= sc.CacheSize
 				}
 				if cached {
@@ -944,14 +1054,14 @@ func TestVerifC05(t *testing.T) {
 		New:      func() interface{} { return &c05Scenario{} },
 		Exec:     c05Exec,
 		MaxSteps: 20000,
-		Rule: "scenario = ipfilter specs at server/rule/path level drawn from an 18-address IPv4+IPv6 universe (single addresses, CIDRs at boundary prefix lengths incl. /0 and host bits, overlapping allow/block, blockByDefault) over 1-3 rules x 0-3 paths, cacheSize in {0,1,2,8}, 1-4 client tasks sending 6-40 requests (client address via RemoteAddr / X-Real-IP / X-Forwarded-For) plus rare reloads; " +
+		Rule: "scenario = ipfilter specs at server/rule/path level drawn from an 18-address IPv4+IPv6 universe (single addresses, CIDRs at boundary prefix lengths incl. /0 and host bits, overlapping allow/block, blockByDefault) over 1-3 rules x 0-3 paths, cacheSize in {0,1,2,8}, 1-4 client tasks sending 6-40 requests (client address via RemoteAddr / X-Real-IP / X-Forwarded-For incl. private-only proxy chains shared by different clients) plus rare reloads; " +
 			"non-trivial = at least one request denied by an applying filter and one allowed request routed, and (if the cache is on) at least one request whose key was already cached; distinct = distinct (configuration, linearised request/answer sequence)",
 		Real: []string{"pkg/object/httpserver mux (reload, ServeHTTP, serveHTTP, search, route cache)", "pkg/util/ipfilter (New, Allow, IPFilters)", "pkg/protocols/httpprot.NewRequest (realip extraction)", "supervisor.NewSpec (YAML + schema validation of the ipFilter entries)", "hashicorp ARC cache, cidranger"},
 		Stub: []string{"pipelines: recording MuxMapper/Handler (harness)", "HTTP transport: httptest.ResponseRecorder, requests built in memory", "sync/atomic -> simsync/simatomic (same semantics + gates)"},
 		Assumptions: []string{
 			"route selection is taken from a quiescent twin of the same mux without filters and without cache (routing bugs are C01's, cache shadowing C12's)",
 			"filters applying = server, rule holding the selected path, selected path; a filter of an earlier host-matching rule may be applied or not, but consistently with the cache-less answer",
-			"client address carried by one source per request (or XFF and X-Real-IP agreeing); private addresses never in X-Forwarded-For; no IPv4-mapped IPv6",
+			"client address = documented realip rule: neither X-Forwarded-For nor X-Real-IP -> RemoteAddr host; else first valid public (not loopback/RFC1918/link-local/ULA) hop of X-Forwarded-For; else X-Real-IP. Generated sources: RemoteAddr, X-Real-IP, XFF client[,proxy], XFF+X-Real-IP agreeing, private-only XFF chain (reused across clients) + X-Real-IP, private hops then client in XFF with decoy X-Real-IP, XFF client + decoy X-Real-IP. Not generated: private-only XFF without X-Real-IP, unparseable hops, IPv4-mapped IPv6",
 			"cached 404/405 answered to a server-denied client is accepted (4xx)",
 			"searches are atomic steps (no gate inside muxInstance.search; the ARC cache has its own real lock): interleaving = order of whole requests + requests parked inside handlers",
 		},
